@@ -206,6 +206,10 @@ class Saddle(object):
                             cfg['seed'] + 13 + i)
         gg = np_rng('c12x0', cfg['seed'])
         self.x0 = P.rand_elem(self.X, gg)
+        if cfg['f']['fam'] == 'kl' or (cfg['f']['fam'] == 'sepsum'):
+            # start inside the (open) domain of f
+            self.x0 = P.unflatten(self.X, np.abs(elem_flat(self.x0)) + 0.1) \
+                if cfg['f']['fam'] == 'kl' else self.x0
         self.scale = 1.0
         self.xstar = None
         if construct:
@@ -243,7 +247,11 @@ class Saddle(object):
             kin = self.prob.fm.kinks(xf)
             snap = (gg.uniform(0, 1, len(xf)) < 0.4) & np.isfinite(kin)
             xf = np.where(snap, kin, xf)
+        if self.solver not in ('admm', 'douglas_rachford'):
+            xf = self.prob.fm.interior(xf)
         xf = self.prob.fm.proj_dom(xf)
+        if not self.prob.fm.safe(xf):
+            raise Reject('x* on the boundary of an open domain')
         if self.solver in ('admm', 'douglas_rachford') and np.linalg.norm(xf) > 0:
             raise Reject('0 not in dom f')
         xs = P.unflatten(self.X, xf)
@@ -254,8 +262,8 @@ class Saddle(object):
         for L, gm, M, MT in zip(self.Ls, self.prob.gms, self.prob.Ms,
                                 self.prob.MTs):
             y = M @ xf
-            if np.linalg.norm(gm.proj_dom(y) - y) > 1e-12:
-                raise Reject('L x* outside dom g (indicator g): no '
+            if np.linalg.norm(gm.proj_dom(y) - y) > 1e-12 or not gm.safe(y):
+                raise Reject('L x* outside (or on the boundary of) dom g: no '
                              'constructed solution')
             Sg = gm.subdiff(y, 1e-12)
             if zero_duals:
@@ -1121,6 +1129,15 @@ def _euclid_prox(model, w):
             small = np.abs(x) <= gam + s * lam
             return sw * np.where(small, x / (1 + s * lam / gam),
                                  x - s * lam * np.sign(x))
+        return p
+    if fam == 'kl':
+        gpr = model.prior
+
+        def p(v, s):
+            # per entry (weights cancel): x - xv + s lam (1 - g/x) = 0
+            xv = v / sw
+            t = s * lam
+            return sw * 0.5 * ((xv - t) + np.sqrt((xv - t) ** 2 + 4 * t * gpr))
         return p
     if fam == 'quadpert':
         # |x|_1 + lam |x|^2 + <c, x>  (all weighted):
